@@ -28,6 +28,8 @@ pub struct Grammar {
 	pub cursors: bool,
 	pub pending: bool,
 	pub ro_readers: bool,
+	/// value sizes per write (empty = default tokens)
+	pub sizes: Vec<usize>,
 }
 
 struct GenState {
@@ -38,6 +40,15 @@ struct GenState {
 	cursor: Vec<bool>, // reader i has cursor
 	began: bool,
 	after_begin_activity: bool,
+}
+
+fn sized_token(i: usize, size: usize) -> Vec<u8> {
+	let mut v = format!("{i:02}").into_bytes();
+	v.truncate(size);
+	while v.len() < size {
+		v.push(b'a' + (v.len() % 26) as u8);
+	}
+	v
 }
 
 fn token(i: usize) -> Vec<u8> {
@@ -69,17 +80,19 @@ pub fn generate(g: &Grammar) -> Vec<Vec<Op>> {
 		// commits
 		if st.w < g.max_w {
 			for (kind, k) in &g.writes {
-				let tok = token(cur.len());
-				cur.push(Op::W(vec![Write::new(*kind, k, &tok)]));
-				st.w += 1;
-				let saved = st.after_begin_activity;
-				if st.began {
-					st.after_begin_activity = true;
+				let toks: Vec<Vec<u8>> = if g.sizes.is_empty() || kind.is_tombstone() { vec![token(cur.len())] } else { g.sizes.iter().map(|s| sized_token(cur.len(), *s)).collect() };
+				for tok in toks {
+					cur.push(Op::W(vec![Write::new(*kind, k, &tok)]));
+					st.w += 1;
+					let saved = st.after_begin_activity;
+					if st.began {
+						st.after_begin_activity = true;
+					}
+					rec(g, st, cur, out);
+					st.after_begin_activity = saved;
+					st.w -= 1;
+					cur.pop();
 				}
-				rec(g, st, cur, out);
-				st.after_begin_activity = saved;
-				st.w -= 1;
-				cur.pop();
 			}
 		}
 		// physical (only once something was written)
@@ -198,6 +211,7 @@ pub fn grammars(tier: Tier) -> Vec<Grammar> {
 				cursors: false,
 				pending: false,
 				ro_readers: false,
+				sizes: vec![],
 			},
 			Grammar {
 				name: "wide-shallow",
@@ -211,6 +225,7 @@ pub fn grammars(tier: Tier) -> Vec<Grammar> {
 				cursors: true,
 				pending: true,
 				ro_readers: true,
+				sizes: vec![],
 			},
 		],
 		Tier::Thorough => vec![
@@ -226,6 +241,7 @@ pub fn grammars(tier: Tier) -> Vec<Grammar> {
 				cursors: false,
 				pending: false,
 				ro_readers: false,
+				sizes: vec![],
 			},
 			Grammar {
 				name: "wide",
@@ -239,6 +255,7 @@ pub fn grammars(tier: Tier) -> Vec<Grammar> {
 				cursors: true,
 				pending: true,
 				ro_readers: true,
+				sizes: vec![],
 			},
 		],
 	}
